@@ -111,6 +111,9 @@ func determinant(a ConstMatrix, positiveDefinite, logScale bool, inSitu *InSitu)
   if positiveDefinite {
     return determinantPD(a, logScale, inSitu)
   } else {
+    if n, m := a.Dims(); n != m {
+      panic("Matrix is not a square matrix!")
+    }
     return determinantNaive(a), nil
   }
 }
